@@ -110,3 +110,10 @@ fn c11_rd_varint_u32() {
 fn c11_rd_varint_u32_overlong() {
 	rd_varint_diff::<u32>(Some(true), 5);
 }
+
+pub(crate) fn consumed(r: &ReaderRead<Chunked<'_>>) -> usize {
+	r.reader.consumed()
+}
+pub(crate) fn scratch_len(r: &ReaderRead<Chunked<'_>>) -> usize {
+	r.scratch.len()
+}
